@@ -1,6 +1,354 @@
-//! Replay of TLC-generated vectors into the real pure functions (filled in per kind).
+//! Replay of TLC-generated vectors into the real functions of n2 (engine E5/E6).
+//!
+//!   n2v vec KIND --in FILE --out FILE
+//!
+//! FILE (in) holds one JSON object per line, exactly what the TLA+ module's Emit printed.
+//! The output is one JSON summary: {"n":…, "bad":[{…first mismatches…}], "nbad":…, "counts":{…}}.
+//! A panic inside n2 is data (caught and reported as a mismatch of kind "panic").
 
-pub fn cmd_vec(_args: &[String]) -> i32 {
-    eprintln!("vec: not built yet");
-    2
+use serde_json::{json, Value};
+use std::io::{BufRead, Write};
+use std::panic::{catch_unwind, AssertUnwindSafe};
+
+fn arg(args: &[String], name: &str) -> Option<String> {
+    args.iter()
+        .position(|a| a == name)
+        .and_then(|i| args.get(i + 1).cloned())
+}
+
+fn panic_text(p: Box<dyn std::any::Any + Send>) -> String {
+    if let Some(s) = p.downcast_ref::<&str>() {
+        s.to_string()
+    } else if let Some(s) = p.downcast_ref::<String>() {
+        s.clone()
+    } else {
+        "panic".to_string()
+    }
+}
+
+/// Characters standing for the byte widths 1..4.
+fn width_char(w: u64) -> char {
+    match w {
+        1 => 'a',
+        2 => 'é',
+        3 => '€',
+        _ => '𝄞',
+    }
+}
+
+fn widths_to_string(v: &Value) -> String {
+    v.as_array()
+        .map(|a| a.iter().map(|w| width_char(w.as_u64().unwrap_or(1))).collect())
+        .unwrap_or_default()
+}
+
+struct Tally {
+    n: usize,
+    nbad: usize,
+    bad: Vec<Value>,
+    counts: std::collections::BTreeMap<String, usize>,
+}
+
+impl Tally {
+    fn bump(&mut self, k: &str) {
+        *self.counts.entry(k.to_string()).or_insert(0) += 1;
+    }
+    fn bad(&mut self, v: Value) {
+        self.nbad += 1;
+        if self.bad.len() < 40 {
+            self.bad.push(v);
+        }
+    }
+}
+
+fn vec_canon(v: &Value, t: &mut Tally) {
+    let i = v["i"].as_str().unwrap_or("").to_string();
+    let o = v["o"].as_str().unwrap_or("");
+    let r = catch_unwind(AssertUnwindSafe(|| n2::canon::to_owned_canon_path(i.clone())));
+    match r {
+        Ok(got) => {
+            if got != o {
+                t.bad(json!({"kind":"mismatch","in":i,"expected":o,"got":got}));
+            }
+            if got != i {
+                t.bump("changed");
+            }
+        }
+        Err(p) => t.bad(json!({"kind":"panic","in":i,"msg":panic_text(p)})),
+    }
+}
+
+fn vec_depfile(v: &Value, t: &mut Tally, dir: &std::path::Path) {
+    let text = v["text"].as_str().unwrap_or("").to_string();
+    let structured = v.get("deps").is_some();
+    // through the same function the task thread uses: file on disk -> flattened list
+    let path = dir.join("x.d");
+    std::fs::write(&path, &text).expect("write depfile");
+    let r = catch_unwind(AssertUnwindSafe(|| n2::verif::read_depfile(&path)));
+    match r {
+        Err(p) => t.bad(json!({"kind":"panic","text":text,"msg":panic_text(p)})),
+        Ok(Err(e)) => {
+            t.bump("rejected");
+            let msg = String::from_utf8_lossy(format!("{}", e).as_bytes()).into_owned();
+            if structured {
+                t.bad(json!({"kind":"rejected","text":text,"err":msg}));
+            } else if !msg.starts_with("parse error:") || !msg.contains("x.d:") || !msg.contains("^") {
+                t.bad(json!({"kind":"diagnostic","text":text,"err":msg}));
+            }
+        }
+        Ok(Ok(deps)) => {
+            t.bump("accepted");
+            if structured {
+                let exp: Vec<String> = v["deps"]
+                    .as_array()
+                    .map(|a| a.iter().map(|x| x.as_str().unwrap_or("").to_string()).collect())
+                    .unwrap_or_default();
+                if v["dup"].as_bool().unwrap_or(false) {
+                    t.bump("dup_target");
+                }
+                if v["nent"].as_u64().unwrap_or(0) > 1 {
+                    t.bump("multi_entry");
+                }
+                if deps != exp {
+                    t.bad(json!({"kind":"mismatch","text":text,"expected":exp,"got":deps,
+                        "dup":v["dup"]}));
+                }
+            }
+        }
+    }
+}
+
+fn vec_render(v: &Value, t: &mut Tally) {
+    if v.get("bar").is_some() {
+        let c: Vec<usize> = v["c"].as_array().unwrap().iter().map(|x| x.as_u64().unwrap() as usize).collect();
+        let n = v["n"].as_u64().unwrap() as usize;
+        let exp = v["bar"].as_str().unwrap_or("");
+        let counts = [c[0], c[1], c[2], c[3], c[4], c[5]];
+        match catch_unwind(AssertUnwindSafe(|| n2::verif::progress_bar(counts, n))) {
+            Ok(got) => {
+                if got.len() != n {
+                    t.bad(json!({"kind":"width","c":c,"n":n,"got":got}));
+                } else if got != exp {
+                    t.bad(json!({"kind":"mismatch","c":c,"n":n,"expected":exp,"got":got}));
+                }
+            }
+            Err(p) => t.bad(json!({"kind":"panic","c":c,"n":n,"msg":panic_text(p)})),
+        }
+        return;
+    }
+    let m = widths_to_string(&v["m"]);
+    if v.get("max").is_some() {
+        let max = v["max"].as_u64().unwrap() as usize;
+        let keep = v["keep"].as_u64().unwrap() as usize;
+        let exp: String = m.chars().take(keep).collect();
+        match catch_unwind(AssertUnwindSafe(|| n2::verif::truncate(&m, max).to_string())) {
+            Ok(got) => {
+                if got != exp {
+                    t.bad(json!({"kind":"mismatch","m":m,"max":max,"expected":exp,"got":got}));
+                }
+                if got.len() < m.len() {
+                    t.bump("cut");
+                }
+            }
+            Err(p) => t.bad(json!({"kind":"panic","m":m,"max":max,"msg":panic_text(p)})),
+        }
+        return;
+    }
+    let secs = v["secs"].as_u64().unwrap() as usize;
+    let cols = v["cols"].as_u64().unwrap() as usize;
+    let keep = v["r"]["keep"].as_u64().unwrap() as usize;
+    let dots = v["r"]["dots"].as_bool().unwrap();
+    let note = v["r"]["note"].as_bool().unwrap();
+    let mut exp: String = m.chars().take(keep).collect();
+    if dots {
+        exp.push_str("...");
+        t.bump("cut");
+    }
+    if note {
+        exp.push_str(&format!(" ({}s)", secs));
+    }
+    match catch_unwind(AssertUnwindSafe(|| n2::verif::task_message(&m, secs, cols))) {
+        Ok(got) => {
+            if got != exp {
+                t.bad(json!({"kind":"mismatch","m":m,"secs":secs,"cols":cols,"expected":exp,"got":got}));
+            }
+        }
+        Err(p) => t.bad(json!({"kind":"panic","m":m,"secs":secs,"cols":cols,"msg":panic_text(p)})),
+    }
+}
+
+/// Loads a manifest (with included files) through load::read in a scratch directory and
+/// compares the graph with the expected one.
+fn vec_manifest(v: &Value, t: &mut Tally, dir: &std::path::Path) {
+    let _ = std::fs::remove_dir_all(dir);
+    std::fs::create_dir_all(dir).expect("scratch");
+    std::env::set_current_dir(dir).expect("chdir");
+    if let Some(files) = v["files"].as_object() {
+        for (name, text) in files {
+            if let Some(parent) = std::path::Path::new(name).parent() {
+                let _ = std::fs::create_dir_all(parent);
+            }
+            let bytes: Vec<u8> = match text {
+                Value::String(s) => s.clone().into_bytes(),
+                Value::Array(a) => a.iter().map(|b| b.as_u64().unwrap_or(0) as u8).collect(),
+                _ => vec![],
+            };
+            std::fs::write(name, bytes).expect("write manifest");
+        }
+    }
+    let main = v["main"].as_str().unwrap_or("build.ninja").to_string();
+    let r = catch_unwind(AssertUnwindSafe(|| n2::verif::load_read(&main)));
+    let expect = &v["expect"];
+    match r {
+        Err(p) => t.bad(json!({"kind":"panic","id":v["id"],"files":v["files"],"msg":panic_text(p)})),
+        Ok(Err(e)) => {
+            t.bump("rejected");
+            let msg = String::from_utf8_lossy(format!("{}", e).as_bytes()).into_owned();
+            let (errk, _, _) = crate::exec::classify_error(&msg);
+            if expect.is_null() {
+                // robustness vector: any diagnostic is fine, but a syntax error must carry
+                // file:line and a caret excerpt
+                if errk == "parse" && !(msg.contains(':') && msg.contains("^\n")) {
+                    t.bad(json!({"kind":"diagnostic","id":v["id"],"files":v["files"],"err":msg}));
+                }
+                return;
+            }
+            if expect["ok"].as_bool().unwrap_or(true) {
+                t.bad(json!({"kind":"rejected","id":v["id"],"files":v["files"],"err":msg}));
+            } else {
+                let want = expect["errk"].as_str().unwrap_or("");
+                if !want.is_empty() && want != errk {
+                    t.bad(json!({"kind":"wrong-error","id":v["id"],"files":v["files"],"err":msg,"want":want}));
+                }
+                if let Some(subs) = expect["mentions"].as_array() {
+                    for s in subs {
+                        if !msg.contains(s.as_str().unwrap_or("")) {
+                            t.bad(json!({"kind":"error-text","id":v["id"],"files":v["files"],"err":msg,"want":s}));
+                        }
+                    }
+                }
+            }
+        }
+        Ok(Ok(st)) => {
+            t.bump("accepted");
+            if expect.is_null() {
+                return;
+            }
+            if !expect["ok"].as_bool().unwrap_or(true) {
+                t.bad(json!({"kind":"accepted","id":v["id"],"files":v["files"],"want":expect}));
+                return;
+            }
+            // compare step by step
+            let steps = expect["steps"].as_array().cloned().unwrap_or_default();
+            if steps.len() != st.builds.len() {
+                t.bad(json!({"kind":"nsteps","id":v["id"],"files":v["files"],"got":st.builds.len(),"want":steps.len()}));
+                return;
+            }
+            for (b, e) in st.builds.iter().zip(steps.iter()) {
+                let nx = b.explicit_ins;
+                let ni = b.implicit_ins;
+                let no = b.order_only_ins;
+                let got = json!({
+                    "outs": b.outs, "nxo": b.explicit_outs,
+                    "ins": b.ins.iter().take(nx + ni).collect::<Vec<_>>(), "nxi": nx,
+                    "oo": b.ins.iter().skip(nx + ni).take(no).collect::<Vec<_>>(),
+                    "val": b.ins.iter().skip(nx + ni + no).collect::<Vec<_>>(),
+                    "phony": b.cmdline.is_none(),
+                    "cmd": b.cmdline.clone().unwrap_or_default(),
+                    "desc": b.desc.clone().unwrap_or_default(),
+                    "depfile": b.depfile.clone().unwrap_or_default(),
+                    "msvc": b.parse_showincludes,
+                    "rsp": b.rspfile.as_ref().map(|r| r.0.clone()).unwrap_or_default(),
+                    "rspc": b.rspfile.as_ref().map(|r| r.1.clone()).unwrap_or_default(),
+                    "hasrsp": b.rspfile.is_some(),
+                    "pool": b.pool.clone().unwrap_or_default(),
+                });
+                for (k, want) in e.as_object().unwrap() {
+                    if k == "eff" || k == "spell" {
+                        continue;
+                    }
+                    if got.get(k) != Some(want) {
+                        t.bad(json!({"kind":"field","id":v["id"],"files":v["files"],"field":k,
+                            "want":want,"got":got.get(k)}));
+                    }
+                }
+            }
+            if let Some(d) = expect.get("defaults") {
+                if json!(st.defaults) != *d {
+                    t.bad(json!({"kind":"defaults","id":v["id"],"files":v["files"],"want":d,"got":st.defaults}));
+                }
+            }
+            if let Some(p) = expect.get("pools") {
+                let got: Vec<Value> = st.pools.iter().map(|(n, d)| json!([n, d])).collect();
+                if json!(got) != *p {
+                    t.bad(json!({"kind":"pools","id":v["id"],"files":v["files"],"want":p,"got":got}));
+                }
+            }
+        }
+    }
+}
+
+pub fn cmd_vec(args: &[String]) -> i32 {
+    let kind = args.first().cloned().unwrap_or_default();
+    let inp = arg(args, "--in").expect("--in");
+    let outp = arg(args, "--out").expect("--out");
+    let root = std::path::PathBuf::from(
+        arg(args, "--root").unwrap_or_else(|| format!("/dev/shm/n2v-vec-{}", std::process::id())),
+    );
+    std::fs::create_dir_all(&root).expect("scratch root");
+    // n2 prints warnings on stdout while loading; keep them out of our way
+    let capture = crate::exec::StdoutCapture::new(&root.join("stdout.cap"));
+    std::panic::set_hook(Box::new(|_| {}));
+    let f = std::io::BufReader::new(std::fs::File::open(&inp).expect("open vectors"));
+    let mut t = Tally {
+        n: 0,
+        nbad: 0,
+        bad: vec![],
+        counts: Default::default(),
+    };
+    let scratch = root.join("w");
+    std::fs::create_dir_all(&scratch).expect("scratch");
+    // --skip N: do not execute the first N vectors; --mark FILE: record the index of the
+    // vector being executed (used by the driver to find an input that aborts the process)
+    let skip: usize = arg(args, "--skip").and_then(|s| s.parse().ok()).unwrap_or(0);
+    let mark = arg(args, "--mark");
+    let mut index = 0usize;
+    for line in f.lines() {
+        let line = line.expect("read");
+        if line.trim().is_empty() {
+            continue;
+        }
+        let v: Value = match serde_json::from_str(&line) {
+            Ok(v) => v,
+            Err(e) => {
+                eprintln!("bad vector: {}: {}", e, line);
+                return 2;
+            }
+        };
+        index += 1;
+        if index <= skip {
+            continue;
+        }
+        if let Some(m) = &mark {
+            let _ = std::fs::write(m, format!("{}", index));
+        }
+        t.n += 1;
+        match kind.as_str() {
+            "canon" => vec_canon(&v, &mut t),
+            "depfile" => vec_depfile(&v, &mut t, &scratch),
+            "render" => vec_render(&v, &mut t),
+            "manifest" => vec_manifest(&v, &mut t, &scratch),
+            _ => {
+                eprintln!("unknown vector kind {}", kind);
+                return 2;
+            }
+        }
+    }
+    let _ = std::env::set_current_dir("/");
+    let _ = std::fs::remove_dir_all(&root);
+    let summary = json!({"kind":kind,"n":t.n,"nbad":t.nbad,"bad":t.bad,"counts":t.counts});
+    let mut out = std::fs::File::create(&outp).expect("create out");
+    let _ = writeln!(out, "{}", summary);
+    drop(capture);
+    0
 }
